@@ -387,6 +387,8 @@ class SymEval:
             return v[1][i]
         if is_const(v) and isinstance(v[1], (tuple, list)) and i < len(v[1]):
             return self.lift(v[1][i])
+        if v[0] == "gval" and isinstance(v[1].v, (list, tuple)) and i < len(v[1].v):
+            return self.lift(v[1].v[i])
         if v[0] == "ite":
             return self.ite(v[1], self.proj(v[2], i), self.proj(v[3], i))
         return self._ov(("proj", v, i))
@@ -474,7 +476,8 @@ class SymEval:
             it = self.expr(s.iter, st)
             info["iter"] = it
             seq = self.concrete_seq(it)
-            if seq is not None and self.unroll and len(seq) <= self.unroll and not _has_break_continue(s.body):
+            do_unroll = self.unroll(s, seq) if callable(self.unroll) else (self.unroll and seq is not None and len(seq) <= self.unroll)
+            if seq is not None and do_unroll and not _has_break_continue(s.body):
                 info["unrolled"] = len(seq)
                 for v in seq:
                     self.assign(s.target, self.lift(v), st, s)
@@ -809,6 +812,12 @@ class SymEval:
                 return const(bool(_CMPFN[sym](a[1], b[1])))
             except Exception:
                 return ("cmp", sym, a, b)
+        if sym in ("==", "!="):
+            for x, y in ((a, b), (b, a)):
+                # "PREFIX" + <something> can only equal a constant string that starts with PREFIX
+                if is_const(x) and isinstance(x[1], str) and y[0] == "bin" and y[1] == "+" and is_const(y[2]) and isinstance(y[2][1], str):
+                    if not x[1].startswith(y[2][1]) or (y[3][0] == "fstr" and y[3][1] and is_const(y[3][1][0]) and not x[1][len(y[2][1]):].startswith(str(y[3][1][0][1]))):
+                        return const(sym == "!=")
         if sym in ("in", "not in") and is_const(a) and b[0] == "gval":
             try:
                 r = a[1] in b[1].v
